@@ -10,7 +10,7 @@ variant=${1:-pinned}; shift || true
 targets=("$@")
 case "$variant" in
   pinned) XF="-O1 -g0" ;;
-  asan)   XF="-O1 -g1 -fsanitize=address -fno-omit-frame-pointer" ;;
+  asan)   XF="-O1 -g1 -DNDEBUG -fsanitize=address -fno-omit-frame-pointer" ;;
   tsan)   XF="-O1 -g1 -fsanitize=thread" ;;
   rel)    XF="-O1 -g0 -DNDEBUG" ;;
   relg)   XF="-O1 -g1 -DNDEBUG" ;;
@@ -18,10 +18,11 @@ case "$variant" in
 esac
 CXXFLAGS="-std=gnu++14 -ffp-contract=off -w -DSOPLEX_VERIF $XF"
 hash=$( { echo "$CXXFLAGS"; cd "$REPO/src" && find . -type f \( -name '*.h' -o -name '*.hpp' -o -name '*.cpp' -o -name '*.in' \) -print0 | sort -z | xargs -0 sha1sum; cd "$VERIF/harness" && find . -type f -print0 | sort -z | xargs -0 sha1sum; } | sha1sum | cut -c1-16)
-B="$VERIF/.cache/build/$variant-$hash"
+tag=$(echo "$REPO" | sha1sum | cut -c1-6)
+B="$VERIF/.cache/build/$variant-$tag-$hash"
 mkdir -p "$B/include/soplex" "$B/obj"
 # remove stale build dirs of this variant
-for d in "$VERIF"/.cache/build/$variant-*; do [ "$d" != "$B" ] && [ -d "$d" ] && rm -rf "$d"; done
+for d in "$VERIF"/.cache/build/$variant-$tag-*; do [ "$d" != "$B" ] && [ -d "$d" ] && rm -rf "$d"; done
 cat > "$B/include/soplex/config.h" <<'EOC'
 #ifndef __SPXCONFIG_H__
 #define __SPXCONFIG_H__
